@@ -4,6 +4,7 @@ pub mod c01;
 pub mod c03;
 pub mod c04;
 pub mod c06;
+pub mod c07;
 pub mod c12;
 pub mod c13;
 pub mod c14;
@@ -28,6 +29,7 @@ pub fn run(ctx: &RunCtx) -> Outcome {
         "C04" => c04::run(ctx),
         "C05" => api::run_c05(ctx),
         "C06" => c06::run(ctx),
+        "C07" => c07::run(ctx),
         "C12" => c12::run(ctx),
         "C13" => c13::run(ctx),
         "C14" => c14::run(ctx),
@@ -57,6 +59,7 @@ pub fn replay(ctx: &RunCtx, case: &Value) -> Result<Option<Fail>, String> {
         }
         "C05" => replay_pat(ctx, &api::Safety, case),
         "C06" => c06::replay(ctx, case),
+        "C07" => replay_pat(ctx, &c07::Limits, case),
         "C12" => c12::replay(ctx, case),
         "C13" => c13::replay(ctx, case),
         "C14" => replay_pat(ctx, &c14::Options, case),
